@@ -35,7 +35,7 @@ na = [{"property_id": pid, "reason": NOT_APPLICABLE.get(pid, "no check is regist
       for pid in ALL if pid not in CHECKS]
 manifest = {
     "version": 1,
-    "setup_cmd": "/venv/bin/python -c 'import hypothesis' 2>/dev/null || /venv/bin/pip install --no-index --find-links /opt/veriftools/wheels hypothesis",
+    "setup_cmd": "(/venv/bin/python -c 'import hypothesis' 2>/dev/null || /venv/bin/pip install --no-index --find-links /opt/veriftools/wheels hypothesis) && (test -d /verif/.deps/atheris || /venv/bin/pip install --quiet --no-index --find-links /opt/veriftools/wheels --target /verif/.deps atheris || echo 'atheris not installed: the optional coverage-guided campaigns of C03/C05 will be skipped')",
     "hooks": {
         "guard": "CODELIMIT_VERIF",
         "enable": "no hook lives in /repo: codelimit is pure Python, checks import /repo's working tree directly (PYTHONPATH=/repo) and install call counters / pattern capture by wrapping module attributes from the harness process; ./check exports CODELIMIT_VERIF=1 for uniformity",
@@ -48,6 +48,11 @@ manifest = {
         "path": "/verif/vf",
         "serves_properties": [c["property_id"] for c in checks],
         "kind_free_text": "property-based testing: Hypothesis 6.168 generators (collect-then-shrink), bounded-exhaustive enumeration with itertools over 16 processes, explicit oracles (reference models, round trips, differential and metamorphic relations), committed replay files",
+    }, {
+        "name": "atheris",
+        "path": "/verif/vf/fuzz",
+        "serves_properties": ["C03", "C05"],
+        "kind_free_text": "coverage-guided fuzzing (atheris 3.1 / libFuzzer) of scan_file with codelimit instrumented; the C03 / C05 oracles run inside the target, findings are re-validated by the vf engine; optional extra engine (skipped with a note if the wheel is absent)",
     }],
     "checks": checks,
     "not_applicable": na,
